@@ -27,17 +27,16 @@ import (
 )
 
 // ---------------------------------------------------------------------------
-// Programs. All of them terminate whatever value is injected into whatever
-// variable: the only loop runs over a literal range and no variable takes
-// part in a loop condition.
+// Programs. All of them terminate whatever the generated commands inject or
+// extract: loops run over literal lists / ranges, the one condition loop
+// counts in a variable (cnt) which no token of the command vocabulary names.
 // ---------------------------------------------------------------------------
 
 type program struct {
-	Src   string // source name given to the parser (= <source> of break targets)
-	Text  string
-	BP    int // canonical breakpoint line ($bp)
-	BP2   int // a second line with code ($bp2)
-	Holds int // number of hold() calls executed by a complete run
+	Src  string // source name given to the parser (= <source> of break targets)
+	Text string
+	BP   int // canonical breakpoint line ($bp)
+	BP2  int // a second line with code ($bp2)
 }
 
 var programs = map[string]*program{
@@ -72,7 +71,7 @@ t := r + s
 `},
 	// a thread which is running from the debugger's point of view: hold() is a
 	// Go function which blocks on a channel owned by the harness
-	"hold": {Src: "hold", BP: 3, BP2: 5, Holds: 4, Text: `n := 0
+	"hold": {Src: "hold", BP: 3, BP2: 5, Text: `n := 0
 for i in [1, 2] {
   n := n + i
   hold(i)
@@ -235,10 +234,11 @@ func (th *thread) inHold() bool {
 	return atomic.LoadInt32(&th.entered) > x
 }
 
+// thread returns the youngest thread with the given id (ids can be reused).
 func (s *session) thread(tid uint64) *thread {
-	for _, th := range s.threads {
-		if th.tid == tid {
-			return th
+	for i := len(s.threads) - 1; i >= 0; i-- {
+		if s.threads[i].tid == tid {
+			return s.threads[i]
 		}
 	}
 	return nil
@@ -280,12 +280,27 @@ func (s *session) parse(name string) (*parser.ASTNode, error) {
 
 // start runs a program on a new thread (the way cli/tool/interpret.go does it:
 // Eval, then RecordThreadFinished in a deferred call).
-func (s *session) start(name string) error {
+//
+// reuse: run on the id of the last finished thread, as the console and the
+// debug server do (one thread id per console / connection, used for every
+// line which is evaluated).
+func (s *session) start(name string, reuse bool) error {
 	ast, err := s.parse(name)
 	if err != nil {
 		return err
 	}
-	th := &thread{tid: s.erp.NewThreadID(), prog: programs[name], done: make(chan struct{}), holdCh: make(chan struct{})}
+	var tid uint64
+	if reuse {
+		for i := len(s.threads) - 1; i >= 0 && tid == 0; i-- {
+			if old := s.threads[i]; old.over && s.thread(old.tid) == old {
+				tid = old.tid
+			}
+		}
+	}
+	if tid == 0 {
+		tid = s.erp.NewThreadID()
+	}
+	th := &thread{tid: tid, prog: programs[name], done: make(chan struct{}), holdCh: make(chan struct{})}
 	s.threads = append(s.threads, th)
 	go s.threadMain(th, ast)
 	return nil
